@@ -1,18 +1,19 @@
 #!/bin/bash
 # tools/run_seed.sh [--in-repo] <seed-name> [PROP...]
 # Runs the quick checks (all claimed ones by default) against a seeded change and writes
-# /verif/seeded/<seed-name>/detection.json.
+# $HERE/seeded/<seed-name>/detection.json.
 #   default    : the patch is applied to a scratch worktree of /repo HEAD and the checks are pointed
 #                at it with VERIF_REPO (own target dir) - does not disturb /repo, can run in background
 #   --in-repo  : the literal procedure: git -C /repo apply, run the checks as registered (they
 #                rebuild from /repo), git -C /repo checkout -- . straight afterwards
 # Evidence/replays of these runs go to a scratch dir, never to /verif/evidence.
 set -u
+HERE="$(cd "$(dirname "$0")/.." && pwd)"
 INREPO=0; if [ "$1" = "--in-repo" ]; then INREPO=1; shift; fi
 NAME="$1"; shift
-D=/verif/seeded/$NAME
-PROPS=("$@"); [ ${#PROPS[@]} -eq 0 ] && PROPS=($(jq -r '.checks[].property_id' /verif/MANIFEST.json))
-SCR=$(mktemp -d /tmp/orx-seedrun-XXXXXX); mkdir -p "$SCR/evidence" "$SCR/replays"; cp /verif/known_findings.json "$SCR/"
+D=$HERE/seeded/$NAME
+PROPS=("$@"); [ ${#PROPS[@]} -eq 0 ] && PROPS=($(jq -r '.checks[].property_id' "$HERE/MANIFEST.json"))
+SCR=$(mktemp -d /tmp/orx-seedrun-XXXXXX); mkdir -p "$SCR/evidence" "$SCR/replays"; cp "$HERE/known_findings.json" "$SCR/"
 if [ $INREPO -eq 1 ]; then
   if [ -n "$(git -C /repo status --porcelain --untracked-files=no)" ]; then echo "/repo has uncommitted changes"; exit 2; fi
   trap 'git -C /repo checkout -- . ; rm -rf "$SCR"' EXIT
@@ -28,7 +29,7 @@ else
 fi
 RES="{}"
 for P in "${PROPS[@]}"; do
-  OUT=$(VERIF_OUT_DIR="$SCR" /verif/check "$P" quick 2>&1); RC=$?
+  OUT=$(VERIF_OUT_DIR="$SCR" "$HERE/check" "$P" quick 2>&1); RC=$?
   FIRST=$(echo "$OUT" | grep -m1 "^violation" | cut -c1-300)
   echo "SEED $NAME $P rc=$RC :: $FIRST"
   RES=$(echo "$RES" | jq --arg p "$P" --argjson rc $RC --arg first "$FIRST" '. + {($p): {rc: $rc, first_violation: $first}}')
